@@ -236,7 +236,7 @@ func runE2E(b Beh, seed int64) ([]J, error) {
 				cs.c.Close()
 				delete(conns, s.K)
 				for n := 0; n < 500; n++ {
-					if x := tr.Ctx.Get(cs.local); x == nil {
+					if sessionOf(tr.Ctx, cs.local) == nil {
 						break
 					}
 					time.Sleep(time.Millisecond)
